@@ -87,46 +87,55 @@ fn d_select0(w: &[u64], len: usize, k: usize) -> Option<usize> {
     None
 }
 
-/// Everything the statement lists, for one position p and one rank k.
-macro_rules! check_all {
-    ($bp:expr, $m:expr, $len:expr, $p:expr, $k:expr, $with_select:expr) => {{
-        let bp = &$bp;
-        let m = &$m;
-        let p = $p;
-        let k = $k;
-        assert!(bp.len() == $len);
-        let fc = bp.find_close(p);
-        assert!(fc == d_find_close(m, $len, p));
-        assert!(bp.find_open(p) == d_find_open(m, $len, p));
-        let enc = bp.enclose(p);
-        assert!(enc == d_enclose(m, $len, p));
-        assert!(bp.parent(p) == enc);
-        let is_open = p < $len && bit(m, p);
-        assert!(bp.is_open(p) == is_open);
-        assert!(bp.is_close(p) == (p < $len && !bit(m, p)));
-        assert!(bp.first_child(p) == if is_open && p + 1 < $len && bit(m, p + 1) { Some(p + 1) } else { None });
-        let ns = match d_find_close(m, $len, p) {
-            Some(c) if c + 1 < $len && bit(m, c + 1) => Some(c + 1),
+/// The statement's queries, split into four groups so that each harness inlines
+/// one copy of the navigation code (CBMC inlines every call site).
+macro_rules! check_group {
+    (close, $bp:expr, $m:expr, $len:expr, $p:expr, $k:expr) => {{
+        let fc = $bp.find_close($p);
+        assert!(fc == d_find_close(&$m, $len, $p));
+        kani::cover!(matches!(fc, Some(c) if c >= 64 && $p < 60));
+        kani::cover!(fc.is_none() && $p < $len && bit(&$m, $p));
+    }};
+    (derived, $bp:expr, $m:expr, $len:expr, $p:expr, $k:expr) => {{
+        let want = d_find_close(&$m, $len, $p);
+        let ns = match want {
+            Some(c) if c + 1 < $len && bit(&$m, c + 1) => Some(c + 1),
             _ => None,
         };
-        assert!(bp.next_sibling(p) == ns);
-        let ex = d_excess(m, $len, p);
-        assert!(bp.excess(p) as i64 == ex);
-        if p < $len && ex >= 0 {
-            assert!(bp.depth(p) == Some(ex as usize));
+        assert!($bp.next_sibling($p) == ns);
+        assert!($bp.subtree_size($p) == want.map(|c| (c - $p) / 2));
+        kani::cover!(ns.is_some() && $p > 3);
+    }};
+    (open, $bp:expr, $m:expr, $len:expr, $p:expr, $k:expr) => {{
+        let fo = $bp.find_open($p);
+        assert!(fo == d_find_open(&$m, $len, $p));
+        let enc = $bp.enclose($p);
+        assert!(enc == d_enclose(&$m, $len, $p));
+        assert!($bp.parent($p) == enc);
+        kani::cover!(matches!(fo, Some(o) if o < 60 && $p >= 64));
+        kani::cover!(matches!(enc, Some(o) if o < 60 && $p >= 64));
+    }};
+    (rank, $bp:expr, $m:expr, $len:expr, $p:expr, $k:expr) => {{
+        assert!($bp.len() == $len);
+        let is_open = $p < $len && bit(&$m, $p);
+        assert!($bp.is_open($p) == is_open);
+        assert!($bp.is_close($p) == ($p < $len && !bit(&$m, $p)));
+        assert!($bp.first_child($p) == if is_open && $p + 1 < $len && bit(&$m, $p + 1) { Some($p + 1) } else { None });
+        let ex = d_excess(&$m, $len, $p);
+        assert!($bp.excess($p) as i64 == ex);
+        if $p < $len && ex >= 0 {
+            assert!($bp.depth($p) == Some(ex as usize));
         }
-        if p >= $len {
-            assert!(bp.depth(p).is_none());
+        if $p >= $len {
+            assert!($bp.depth($p).is_none());
         }
-        assert!(bp.subtree_size(p) == d_find_close(m, $len, p).map(|c| (c - p) / 2));
-        let lim = if p < $len { p } else { $len };
-        assert!(bp.rank1(p) == spec::rank1(m, lim));
-        assert!(bp.rank0(p) == lim - spec::rank1(m, lim));
-        assert!(bp.select0(k) == d_select0(m, $len, k));
-        if $with_select {
-            assert!(bp.select1(k) == spec::select1(m, $len, k));
-        }
-        fc
+        let lim = if $p < $len { $p } else { $len };
+        assert!($bp.rank1($p) == spec::rank1(&$m, lim));
+        assert!($bp.rank0($p) == lim - spec::rank1(&$m, lim));
+        assert!($bp.select0($k) == d_select0(&$m, $len, $k));
+        assert!($bp.total_ones() == spec::rank1(&$m, $len));
+        kani::cover!($p > 64 && $p < $len && ex < 0);
+        kani::cover!(matches!($bp.select0($k), Some(z) if z >= 64));
     }};
 }
 
@@ -135,7 +144,7 @@ macro_rules! check_all {
 macro_rules! free_fns {
     ($name:ident, $len:expr) => {
         #[kani::proof]
-        #[kani::unwind(8)]
+        #[kani::unwind(10)]
         fn $name() {
             let w: [u64; 2] = kani::any();
             let m = masked(&w, $len);
@@ -165,9 +174,9 @@ free_fns!(c04_free_len1, 1);
 // ---- BalancedParens, every storage / select variant ----------------------------------------
 
 macro_rules! bp_owned {
-    ($name:ident, $len:expr) => {
+    ($name:ident, $grp:ident, $len:expr) => {
         #[kani::proof]
-        #[kani::unwind(8)]
+        #[kani::unwind(10)]
         fn $name() {
             let w: [u64; 2] = kani::any();
             let m = masked(&w, $len);
@@ -176,48 +185,58 @@ macro_rules! bp_owned {
             kani::assume(p <= 131);
             let k: usize = kani::any();
             kani::assume(k <= 131);
-            let fc = check_all!(bp, m, $len, p, k, false);
-            kani::cover!(matches!(fc, Some(c) if c >= 64 && p < 60));
-            kani::cover!(fc.is_none() && p < $len && bit(&m, p));
+            check_group!($grp, bp, m, $len, p, k);
             core::mem::forget(bp);
         }
     };
 }
-bp_owned!(c04_bp_owned_len100, 100);
-bp_owned!(c04_bp_owned_len128, 128);
-bp_owned!(c04_bp_owned_len65, 65);
-bp_owned!(c04_bp_owned_len64, 64);
-bp_owned!(c04_bp_owned_len63, 63);
-bp_owned!(c04_bp_owned_len1, 1);
+bp_owned!(c04_bp_close_len100, close, 100);
+bp_owned!(c04_bp_derived_len100, derived, 100);
+bp_owned!(c04_bp_open_len100, open, 100);
+bp_owned!(c04_bp_rank_len100, rank, 100);
+bp_owned!(c04_bp_close_len128, close, 128);
+bp_owned!(c04_bp_open_len128, open, 128);
+bp_owned!(c04_bp_rank_len128, rank, 128);
+bp_owned!(c04_bp_close_len65, close, 65);
+bp_owned!(c04_bp_open_len65, open, 65);
+bp_owned!(c04_bp_rank_len65, rank, 65);
+bp_owned!(c04_bp_close_len64, close, 64);
+bp_owned!(c04_bp_open_len64, open, 64);
+bp_owned!(c04_bp_close_len63, close, 63);
+bp_owned!(c04_bp_rank_len63, rank, 63);
+bp_owned!(c04_bp_close_len1, close, 1);
+bp_owned!(c04_bp_rank_len1, rank, 1);
 
 /// Borrowed storage with stray bits left in the words.
 macro_rules! bp_borrowed {
-    ($name:ident, $len:expr) => {
+    ($name:ident, $grp:ident, $len:expr) => {
         #[kani::proof]
-        #[kani::unwind(8)]
+        #[kani::unwind(10)]
         fn $name() {
             let w: [u64; 2] = kani::any();
             let m = masked(&w, $len);
+            kani::assume(w[1] != m[1]); // stray bits present
             let bp = BalancedParens::from_words(&w[..], $len);
             let p: usize = kani::any();
             kani::assume(p <= 131);
             let k: usize = kani::any();
             kani::assume(k <= 131);
-            let fc = check_all!(bp, m, $len, p, k, false);
-            kani::cover!(matches!(fc, Some(c) if c >= 64 && p < 60) && w[1] != m[1]);
+            check_group!($grp, bp, m, $len, p, k);
             core::mem::forget(bp);
         }
     };
 }
-bp_borrowed!(c04_bp_borrowed_len100, 100);
-bp_borrowed!(c04_bp_borrowed_len65, 65);
-bp_borrowed!(c04_bp_borrowed_len63, 63);
+bp_borrowed!(c04_bp_borrowed_close_len100, close, 100);
+bp_borrowed!(c04_bp_borrowed_open_len100, open, 100);
+bp_borrowed!(c04_bp_borrowed_rank_len100, rank, 100);
+bp_borrowed!(c04_bp_borrowed_close_len65, close, 65);
+bp_borrowed!(c04_bp_borrowed_rank_len65, rank, 65);
 
 /// Select-support variants: deprecated sampled select and CS-Poppy at concrete rates.
 macro_rules! bp_select {
     ($name:ident, $len:expr, $ctor:expr) => {
         #[kani::proof]
-        #[kani::unwind(8)]
+        #[kani::unwind(10)]
         #[kani::stub(succinctly::util::simd::x86::has_fast_bmi2, any_bool)]
         #[kani::stub(core::arch::x86_64::_pdep_u64, models::pdep_u64)]
         #[kani::stub(std_detect::detect::__is_feature_detected::avx2, yes)]
@@ -265,7 +284,7 @@ bp_select!(c04_bp_cspoppy_rate7_len128, 128, cspoppy_rate7);
 bp_select!(c04_bp_cspoppy_rate4096_len65, 65, cspoppy_rate4096);
 
 #[kani::proof]
-#[kani::unwind(8)]
+#[kani::unwind(10)]
 fn c04_witness_must_fail() {
     let w: [u64; 2] = kani::any();
     let bp = BalancedParens::new(vec![w[0], w[1]], 100);
